@@ -2045,6 +2045,11 @@ func runProfile(p profile, seed int64, tier, outDir string) (*emit.Summary, erro
 		cf := &emit.CaseFile{Name: fmt.Sprintf("Cases_%s_%d", p.name, i/perFile),
 			Imports: "From CliUtils Require Import Model.PipelineTypes Corr.CorrPipeline.",
 			Check:   "check_" + p.name}
+		if p.check != "" {
+			// mutation campaigns (tools/mutpipe.py): every monitor on every case
+			cf.Imports = "From CliUtils Require Import Model.PipelineTypes Corr.CorrPipeline Corr.CorrPipelineAll."
+			cf.Check = p.check
+		}
 		for _, h := range c.hist[i:min(i+perFile, len(c.hist))] {
 			t := h.Coq()
 			cf.Add(t, h.Text())
